@@ -1486,14 +1486,19 @@ impl<'l> CelCompiler<'l> {
         let mut i = Interpreter::empty();
         i.add_bindings(&self.bindings);
         let bc = member_prime_node.into_unresolved_bytecode().resolve();
+        self.bindings.take_non_const();
         let r = i.run_raw(&bc, true);
 
         #[cfg(rscel_verif)]
         crate::verif::emit(crate::verif::Event::ConstFold { folded: r.is_ok() });
+        // a result that depended on a name without a compile-time meaning (a variable, a
+        // user function) or on the clock is not a constant, even if the failure was absorbed
+        let non_const = self.bindings.take_non_const();
+
 
         match r {
-            Ok(v) => CompiledProg::with_const(v),
-            Err(_) => CompiledProg::with_bytecode(bc),
+            Ok(v) if !non_const => CompiledProg::with_const(v),
+            _ => CompiledProg::with_bytecode(bc),
         }
     }
 }
